@@ -235,3 +235,18 @@ VARIANTS += [
  V("c27-o3-cache-failed-read", "C27", "C27.O3", "sstable/block/block.go",
    "	if err != nil {\n		crh.SetReadError(err)\n		return BufferHandle{}, env.maybeReportCorruption(err)\n	}\n	crh.SetReadValue(value.v)", "	crh.SetReadValue(value.v)\n	if err != nil {\n		return BufferHandle{}, env.maybeReportCorruption(err)\n	}"),
 ]
+
+VARIANTS += [
+ V("c11-o1-create-before-close", "C11", "C11.O1", "db.go",
+   "		d.opts.Logger.Fatalf(\"pebble: error closing WAL; data loss possible if we continue: %s\", err)", "		d.opts.Logger.Errorf(\"pebble: error closing WAL; data loss possible if we continue: %s\", err)"),
+ V("c11-g1-all-wals-lenient", "C11", "C11.G1", "open.go",
+   "		strictWALTail := i < len(rs.walsReplay)-1", "		strictWALTail := i < len(rs.walsReplay)-2"),
+ V("c11-o3-apply-undecoded-batch", "C11", "C11.O3", "recovery.go",
+   "		if err := b.SetRepr(buf.Bytes()); err != nil {\n			return nil, 0, err\n		}", "		_ = b.SetRepr(buf.Bytes())"),
+ V("c10-v1-minlog-off-by-one", "C10", "C10.V1", "compaction.go",
+   "	minUnflushedLogNum := d.mu.mem.queue[n].logNum", "	minUnflushedLogNum := d.mu.mem.queue[n-1].logNum + 1"),
+ V("c10-o5-new-wal-before-flush", "C10", "C10.O5", "open.go",
+   "		for d.mu.compact.flushing {\n			d.mu.compact.cond.Wait()\n		}\n", ""),
+ V("c10-o5c-options-rename-before-sync", "C10", "C10.O5c", "open.go",
+   "		if err := optionsFile.Sync(); err != nil {\n			return nil, errors.CombineErrors(err, optionsFile.Close())\n		}\n", ""),
+]
